@@ -1,5 +1,6 @@
 import CanvasModel.C09
 import CanvasModel.C09.SplitAt
+import CanvasModel.C09.Length
 import CanvasModel.C10
 import CanvasModel.Region
 import CanvasGen.CoreF
@@ -15,6 +16,11 @@ import CanvasGen.GaussLegendreC09
   REVWN delta P <poly> R <poly> PTS …   -> verdict: wn(R, q) = −wn(P, q) for every q off the δ-band (exact)
   QCUTS p0 p1 p2 t1 … tn                -> the n+1 pieces of the quadratic cutting loop (`cutsGen`) as data arrays
   CCUTS p0 p1 p2 p3 t1 … tn             -> the same for a cubic
+  REVSPEC <records of p> R <records of Reverse(p)>  -> verdict of the executable specification `reverseVerdict`
+        on the exact bit patterns: ok | skip … | FAIL subpath-count|closedness|points|output-not-structured
+  LENGTH <records> O a b …             -> `Path.Length()` of the model (`a b` per drawing record: inflection
+        parameters of a cubic / centre angles of an arc, from the real code; otherwise ignored)
+  HYPOT x y                             -> `math.Hypot`
   SPLITAT TS t… P <records> O <oracle>  -> `k` then every piece of `SplitAt` as `| data…` (`panic` if the model panics);
         oracle: per drawing record `s dT cx cy th1 th2 n v1 … vn` (segment length, centre form, inverse values)
 
@@ -88,6 +94,37 @@ def checkRevWn (s : Region.Scene) : String := Id.run do
     idx := idx + 1
   return s!"ok checked={checked} skipped={skipped}"
 
+/-! records over exact bit patterns (`UInt64` has decidable equality, `Float` has not) -/
+
+def bits? (s : String) : Option UInt64 := (parseHexNat? s).map UInt64.ofNat
+
+def ptB? (x y : String) : Option (Pt UInt64) := do
+  let a ← bits? x
+  let b ← bits? y
+  pure ⟨a, b⟩
+
+def parseCmdsB : Nat → List String → Option (List (Cmd UInt64))
+  | _, [] => some []
+  | 0, _ => none
+  | n + 1, "M" :: x :: y :: t => do (parseCmdsB n t).map (.move (← ptB? x y) :: ·)
+  | n + 1, "L" :: x :: y :: t => do (parseCmdsB n t).map (.line (← ptB? x y) :: ·)
+  | n + 1, "Z" :: x :: y :: t => do (parseCmdsB n t).map (.close (← ptB? x y) :: ·)
+  | n + 1, "Q" :: a :: b :: x :: y :: t => do (parseCmdsB n t).map (.quad (← ptB? a b) (← ptB? x y) :: ·)
+  | n + 1, "C" :: a :: b :: c :: d :: x :: y :: t => do
+    (parseCmdsB n t).map (.cube (← ptB? a b) (← ptB? c d) (← ptB? x y) :: ·)
+  | n + 1, "A" :: rx :: ry :: phi :: l :: s :: x :: y :: t => do
+    (parseCmdsB n t).map (.arc (← bits? rx) (← bits? ry) (← bits? phi) (← C10.bool? l) (← C10.bool? s) (← ptB? x y) :: ·)
+  | _, _ => none
+
+/-- `Point.Equals` on bit patterns -/
+def ptEqB (p q : Pt UInt64) : Bool :=
+  GenF.Equal (Float.ofBits p.x) (Float.ofBits q.x) && GenF.Equal (Float.ofBits p.y) (Float.ofBits q.y)
+
+def showVerdict : Verdict → String
+  | .ok => "ok"
+  | .skip w => "skip " ++ w
+  | .fail c => "FAIL " ++ c
+
 abbrev QuadF := Pt Float × Pt Float × Pt Float
 abbrev CubicF := Pt Float × Pt Float × Pt Float × Pt Float
 
@@ -155,6 +192,21 @@ def splitOn (sep : String) (l : List String) : List String × List String :=
 def joinPieces (ps : List String) : String := " | ".intercalate ps
 
 def handle : List String → Option String
+  | "REVSPEC" :: toks => do
+    let (pT, rT) := splitOn "R" toks
+    let p ← parseCmdsB pT.length pT
+    let r ← parseCmdsB rT.length rT
+    pure (showVerdict (reverseVerdict ptEqB p r))
+  | ["HYPOT", x, y] => do
+    pure (hexOfFloat (hypotGo (← floatOfHex? x) (← floatOfHex? y)))
+  | "LENGTH" :: toks => do
+    let (recT, orT) := splitOn "O" toks
+    let cs ← parseCmds recT.length recT
+    let fs ← orT.mapM floatOfHex?
+    let rec pair : List Float → List LenOracle
+      | a :: b :: t => ⟨a, b⟩ :: pair t
+      | _ => []
+    (lengthF zeroPt 0.0 cs (pair fs)).map hexOfFloat
   | "SPLITAT" :: "TS" :: toks => do
     let (tsT, rest) := splitOn "P" toks
     let (recT, orT) := splitOn "O" rest
